@@ -20,7 +20,7 @@ type Source struct {
 // Sources is the registry. Own sources first; external generator packages are
 // appended by init() functions in sources_ext.go.
 var Sources = []Source{
-	{Name: "execgen/templates", Gen: Templates},
+	{Name: "execgen/templates", Gen: func(r *rand.Rand, n int) []prog.History { return Templates(r, 3*n) }},
 }
 
 // Register appends a source (used by sources_ext.go).
